@@ -235,6 +235,11 @@ hwloc_shmem_topology_adopt(hwloc_topology_t *topologyp,
   new->infos.count = 0;
   new->infos.allocated = 0;
   hwloc__tma_dup_infos(NULL, &new->infos, &old->infos);
+  /* duplicate allowed sets so that hwloc_topology_allow() can modify them */
+  new->allowed_cpuset = hwloc_bitmap_dup(old->allowed_cpuset);
+  new->allowed_nodeset = hwloc_bitmap_dup(old->allowed_nodeset);
+  if (!new->allowed_cpuset || !new->allowed_nodeset)
+    goto out_with_allowed;
 
 #ifndef HWLOC_DEBUG
   if (getenv("HWLOC_DEBUG_CHECK"))
@@ -244,6 +249,10 @@ hwloc_shmem_topology_adopt(hwloc_topology_t *topologyp,
   *topologyp = new;
   return 0;
 
+ out_with_allowed:
+  hwloc_bitmap_free(new->allowed_cpuset);
+  hwloc_bitmap_free(new->allowed_nodeset);
+  hwloc__free_infos(&new->infos);
  out_with_support:
   free(new->support.discovery);
   free(new->support.cpubind);
@@ -262,6 +271,8 @@ hwloc__topology_disadopt(hwloc_topology_t topology)
 {
   hwloc_components_fini();
   hwloc__free_infos(&topology->infos);
+  hwloc_bitmap_free(topology->allowed_cpuset);
+  hwloc_bitmap_free(topology->allowed_nodeset);
   munmap(topology->adopted_shmem_addr, topology->adopted_shmem_length);
   free(topology->support.discovery);
   free(topology->support.cpubind);
